@@ -154,6 +154,49 @@ def runImp (prop fS tyS srcS extS implS0 : String) : Result :=
         s!"imp {fS}({tyS}) {srcS}: impl [{implS0}] model [{ms}] violates {prop}: key={c}"⟩
   | _, _, _, _ => ⟨"B", "cannot parse imp case"⟩
 
+/-- `setcol`: `Row.Set` / `SetAtIndex` of a value under a declared column of a row the template created. The model is
+    `Value.setExisting` on the column's prototype cell; the observation is the raw value held afterwards and what the
+    cell exports. C11's oracle: a binary column of a fixed-width raw type never emits a payload of another width. -/
+def runSetCol (prop fS tyS srcS extS implS0 : String) : Result :=
+  let (implS, reS) : String × Option String :=
+    match implS0.splitOn " => " with
+    | [a, b] => (a, some b)
+    | _ => (implS0, none)
+  match Format.ofName? fS, Ty.ofName? tyS, Dyn.parse? srcS, parseOutcome implS with
+  | some f, some ty, some v, some impl =>
+    let env : Env := ⟨genTables, parseExt extS⟩
+    let isPanic := match impl with | .panic _ => true | _ => false
+    let p : Option String :=
+      if isPanic then some "panic"
+      else if prop == "C11" then
+        match f, binWidth ty, reS with
+        | .binary, some w, some re =>
+          (match Dyn.parse? re with
+           | some .nil => none
+           | some (.str s) =>
+             (match Base64.decode s with
+              | some b => if b.length != w then some "stored-value-emitted-with-another-width" else none
+              | none => some "emitted-payload-is-not-base64")
+           | some _ => some "emitted-payload-is-not-a-string"
+           | none => if re == "ERR" then none else some "unreadable-observation")
+        | _, _, _ => none
+      else none
+    let m : Option (String × String) :=
+      match (match v with | .val _ => (.err .ext : Outcome Val) | _ => Value.setExisting env (.cell .nil f ty) v) with
+      | .ok c => some ((Cells.raw c).show, match exportVal env c with | .ok e => e.show | .err .ext => "EXT" | _ => "ERR")
+      | _ => none
+    let d : Bool :=
+      match m, impl with
+      | some (raw, ex), .ok r =>
+        ex != "EXT" && (raw != r.show ||
+          (match reS with | some re => (if re == "ERR" then "ERR" else ((Dyn.parse? re).map (·.show)).getD "?") != ex | none => false))
+      | _, _ => false
+    match d, p with
+    | false, none => if m.isNone && !isPanic then ⟨"X", "model abstains"⟩ else ⟨"S", ""⟩
+    | true, none => ⟨"D", s!"setcol {fS}({tyS}) {srcS}: impl [{implS0}] model [{m}]"⟩
+    | _, some c => ⟨(if d then "D" else "") ++ "P", s!"setcol {fS}({tyS}) {srcS}: impl [{implS0}] model [{m}] violates {prop}: key={c}"⟩
+  | _, _, _, _ => ⟨"B", "cannot parse setcol case"⟩
+
 /-- Did the exporter's `NewValue` swallow a failed cast for some declared column? `none` when the
     model cannot tell (a stdlib answer it was not given, or a caster the translator could not read). -/
 def swallowedCast (env : Env) (to : Tmpl) (row : List (Bytes × Val)) : Option Bool :=
